@@ -139,16 +139,22 @@ def _shape(s):
 # ---- creators: always SymArray
 @_reg
 def zeros(shape, dtype=float, **k):
+    if _np.dtype(dtype).kind == "S":
+        return SymArray.from_S(_np.zeros(_shape(shape), dtype=dtype))
     return SymArray(obj(_np.zeros(_shape(shape), dtype=dtype)), dtype)
 
 
 @_reg
 def ones(shape, dtype=float, **k):
+    if _np.dtype(dtype).kind == "S":
+        return SymArray.from_S(_np.zeros(_shape(shape), dtype=dtype))
     return SymArray(obj(_np.ones(_shape(shape), dtype=dtype)), dtype)
 
 
 @_reg
 def empty(shape, dtype=float, **k):
+    if _np.dtype(dtype).kind == "S":
+        return SymArray.from_S(_np.zeros(_shape(shape), dtype=dtype))
     return SymArray(obj(_np.zeros(_shape(shape), dtype=dtype)), dtype)
 
 
@@ -165,20 +171,36 @@ def full(shape, fill_value, dtype=None, **k):
     return wrap_real(a)
 
 
-def _like(maker):
+def _like(maker, name):
     def f(a, dtype=None, shape=None, **k):
+        fx = _foreign((a,), {})
+        if fx is not None:
+            kw = dict(k)
+            if dtype is not None:
+                kw["dtype"] = dtype
+            if shape is not None:
+                kw["shape"] = shape
+            r = fx.__array_function__(f, (type(fx),), (a,), kw)
+            if r is not NotImplemented:
+                return r
         dt = dtype or a.dtype
         return maker(a.shape if shape is None else shape, dtype=dt)
+    f.__name__ = name
     return f
 
 
-symnp.zeros_like = _like(zeros)
-symnp.ones_like = _like(ones)
-symnp.empty_like = _like(empty)
+symnp.zeros_like = _like(zeros, "zeros_like")
+symnp.ones_like = _like(ones, "ones_like")
+symnp.empty_like = _like(empty, "empty_like")
 
 
 @_reg
 def full_like(a, fill_value, dtype=None, shape=None, **k):
+    fx = _foreign((a,), {})
+    if fx is not None:
+        r = fx.__array_function__(full_like, (type(fx),), (a, fill_value), {kk: vv for kk, vv in (("dtype", dtype), ("shape", shape)) if vv is not None})
+        if r is not NotImplemented:
+            return r
     return full(a.shape if shape is None else shape, fill_value, dtype=dtype or a.dtype)
 
 
